@@ -1,4 +1,10 @@
-"""C07 -- backend vector and matrix-vector primitives equal their algebraic definitions."""
+"""C07 -- backend vector and matrix-vector primitives equal their algebraic definitions.
+
+Scalar cases (driver kernels): exact rationals, doubles with NaN junk, block_crs / hybrid / Eigen backends.
+Block and complex value types (driver kernels_block, ops bk.* / bkd.* / cx.*): the same extracted model functions at
+BlockS QcS b / ComplexS QcS; stage 2 re-evaluates every block case with base-scalar coefficients by the proved SCALAR
+model on the expanded (unblocked) matrix and flattened vectors (scalar_twin) and recomputes complex inner products as
+sum x_i conj(y_i)."""
 import random
 from fractions import Fraction as F
 from vcheck import fmt_q, fmt_vec, fmt_crs
@@ -161,24 +167,66 @@ def block_cases(tier, seed):
             B1, B2 = bv.rblock(r, b), bv.rblock(r, b)
             add("bk.mul", b, bv.fmt_blk(B1), bv.fmt_blk(B2)); add("bk.adjoint", b, bv.fmt_blk(B1)); add("bk.norm", b, bv.fmt_blk(B1))
     BSTAT.clear(); BSTAT.update(bv.noncommuting_fraction(r, mats))
+    # ---- static_matrix<double,b,b>: exact dyadic inputs, NaN/Inf junk in outputs that must be overwritten
+    DY = [F(k, d) for k in range(-8, 9) for d in (1, 2, 4)]
+    def dq(nz=False):
+        v = r.choice(DY)
+        return F(1) if (nz and v == 0) else v
+    def dblock(b):
+        kind = r.choice(["gen", "gen", "upper", "lower", "diag", "sparse"])
+        return [[(dq(True) if (kind == "gen" or (kind == "upper" and j >= i) or (kind == "lower" and j <= i) or (kind == "diag" and i == j)
+                  or (kind == "sparse" and r.random() < 0.5)) else F(0)) for j in range(b)] for i in range(b)]
+    def dcoef(b):
+        if r.random() < 0.5: return ("s", r.choice([F(0), F(0), F(1), F(-1), dq(True)]))
+        k = r.random()
+        if k < 0.35: return ("m", bv.bl_zero(b))
+        if k < 0.45: return ("m", bv.bl_id(b))
+        return ("m", dblock(b))
+    def czero(kc): return (kc[1] == 0) if kc[0] == "s" else bv.bl_is_zero(kc[1])
+    def junkv(n, b): return " ".join([str(n)] + [r.choice(["nan", "inf", "-inf", "nan", "1", "-3"]) for _ in range(n * b)])
+    for it in range(N // 2):
+        b = r.choice([2, 2, 3])
+        n = r.choice([1, 2, 3, 4, 5]); m = r.choice([n, n + 1, max(1, n - 1)])
+        rows = [[(c, dblock(b)) for c in sorted(r.sample(range(m), r.randint(0, min(m, 3))))] for _ in range(n)]
+        A = bv.fmt_bcrs(n, m, rows)
+        DV = lambda k: bv.fmt_bvec([dq() for _ in range(k * b)], b)
+        al, be_ = dcoef(b), dcoef(b)
+        add("bkd.spmv", b, kinds(al, be_), r.choice(["bb", "bb", "ss"]), bv.fmt_coef(al), A, DV(m), bv.fmt_coef(be_), junkv(n, b) if czero(be_) else DV(n))
+        add("bkd.residual", b, r.choice(["bbb", "bbb", "sss"]), DV(n), A, DV(m), junkv(n, b))
+        a, bq, c = dcoef(b), dcoef(b), dcoef(b)
+        add("bkd.axpby", b, kinds(a, bq), bv.fmt_coef(a), DV(n), bv.fmt_coef(bq), junkv(n, b) if czero(bq) else DV(n))
+        add("bkd.axpbypcz", b, kinds(a, bq, c), bv.fmt_coef(a), DV(n), bv.fmt_coef(bq), DV(n), bv.fmt_coef(c), junkv(n, b) if czero(c) else DV(n))
+        X = [dblock(b) for _ in range(n)]
+        add("bkd.vmul", b, kinds(a, bq), r.choice(["bb", "ss"]), bv.fmt_coef(a), bv.fmt_blocks(X), DV(n), bv.fmt_coef(bq), junkv(n, b) if czero(bq) else DV(n))
+        add("bkd.copy", b, DV(n), junkv(n, b)); add("bkd.clear", b, junkv(n, b))
+        add("bkd.inner", b, DV(n), DV(n))
+        nv = r.choice([1, 2, 3, 4, 5]); kc = r.choice(["s", "m"]); alc = dcoef(b)
+        parts = [str(nv)]
+        for _ in range(nv):
+            cj = dcoef(b)
+            while cj[0] != kc: cj = dcoef(b)
+            parts += [bv.fmt_coef(cj), DV(n)]
+        add("bkd.lin_comb", b, kc + alc[0], " ".join(parts), bv.fmt_coef(alc), junkv(n, b) if czero(alc) else DV(n))
     # ---- complex
     for it in range(N):
         n = r.choice([0, 1, 1, 2, 3, 4, 5, 7]); m = r.choice([n, n, max(1, n + r.randint(-2, 3))])
         rows = bv.rccrs(r, n, m, dups=(r.random() < 0.3)); A = bv.fmt_ccrs(n, m, rows)
         CV = lambda k: bv.fmt_cvec([bv.rcx(r) for _ in range(k)])
         al, be_ = bv.ccoef(r), bv.ccoef(r)
-        add("cx.spmv", kinds(al, be_), bv.fmt_ccoef(al), A, CV(m), bv.fmt_ccoef(be_), CV(n))
-        add("cx.residual", CV(n), A, CV(m), CV(n))
+        cz0 = lambda kc: (kc[1] == 0) if kc[0] == "r" else (kc[1] == (0, 0))
+        CJ = lambda k: " ".join([str(k)] + [r.choice(["nan", "inf", "-inf", "nan", "1", "-3"]) for _ in range(2 * k)])   # NaN/Inf junk (binary64)
+        add("cx.spmv", kinds(al, be_), bv.fmt_ccoef(al), A, CV(m), bv.fmt_ccoef(be_), CJ(n) if cz0(be_) else CV(n))
+        add("cx.residual", CV(n), A, CV(m), CJ(n))
         a, bq = bv.ccoef(r), bv.ccoef(r)
-        add("cx.axpby", kinds(a, bq), bv.fmt_ccoef(a), CV(n), bv.fmt_ccoef(bq), CV(n))
-        add("cx.vmul", kinds(a, bq), bv.fmt_ccoef(a), CV(n), CV(n), bv.fmt_ccoef(bq), CV(n))
+        add("cx.axpby", kinds(a, bq), bv.fmt_ccoef(a), CV(n), bv.fmt_ccoef(bq), CJ(n) if cz0(bq) else CV(n))
+        add("cx.vmul", kinds(a, bq), bv.fmt_ccoef(a), CV(n), CV(n), bv.fmt_ccoef(bq), CJ(n) if cz0(bq) else CV(n))
         k3 = r.choice(["ccc", "ccc", "rrr", "crc", "rcr"])
         def ck(kind):
             z = bv.ccoef(r)
             while z[0] != kind: z = bv.ccoef(r)
             return bv.fmt_ccoef(z)
         add("cx.axpbypcz", k3, ck(k3[0]), CV(n), ck(k3[1]), CV(n), ck(k3[2]), CV(n))
-        add("cx.copy", CV(n), CV(n)); add("cx.clear", CV(n))
+        add("cx.copy", CV(n), CJ(n)); add("cx.clear", CJ(n))
         add("cx.inner", CV(n), CV(n))
         nv = r.choice([1, 2, 3, 4, 5]); kc = r.choice(["c", "c", "r"]); ka = r.choice(["c", "c", "r"])
         parts = [str(nv)]
@@ -290,7 +338,7 @@ def block_run(ctx, blines):
 
 
 def is_block_line(l):
-    return l.split(" ", 2)[1].startswith(("bk.", "cx."))
+    return l.split(" ", 2)[1].startswith(("bk.", "bkd.", "cx."))
 
 
 def run(ctx, cases_override=None):
